@@ -40,8 +40,9 @@ from engines import masterloop
 
 scheduler.DIMENSION_COUNT = 3
 
-LOOP_PROPS = ('C09', 'C11', 'C01', 'C03', 'C04', 'C05', 'C06', 'C08')
-CELL_PROPS = ('C01', 'C03', 'C04', 'C05', 'C06', 'C08', 'C02')
+LOOP_PROPS = ('C09', 'C11', 'C01', 'C02', 'C03', 'C04', 'C05', 'C06', 'C07',
+              'C08')
+CELL_PROPS = ('C01', 'C03', 'C04', 'C05', 'C06', 'C07', 'C08', 'C02')
 _TRUTH = None
 _WRAPPED = False
 
@@ -766,7 +767,7 @@ class World(masterloop.LoopWorld):
                         for e in ctx.rec.events)
         if self.prop in ('C01', 'C03'):
             self.nontrivial += 1 if changed else 0
-        elif self.prop == 'C04':
+        elif self.prop in ('C04', 'C07'):
             self.nontrivial += 1 if evictions else 0
         elif self.prop == 'C06':
             self.nontrivial += 1 if any(
@@ -2037,8 +2038,26 @@ class Generator:
         pats = []
         for proid in self.config['proids']:
             if self.rng.random() < 0.3:
+                # (also: entries that match nothing - a prefix of a name,
+                # the proid alone - and other glob forms)
                 pats.append('%s.%s' % (proid, self.rng.choice(
-                    ['*', 'web', 'db'])))
+                    ['*', 'web', 'db', 'web', 'db', 'we', 'd', 'jo',
+                     '?eb', 'j*', '[dw]b'])) if self.rng.random() < 0.9
+                    else proid)
+        return {'op': 'apps_blacklist', 'patterns': pats}
+
+    def g_blackout_near_miss(self, world):
+        """Blackout entries that come close to the name of a running
+        application without matching it."""
+        stored = sorted(world.stored_placement())
+        if not stored:
+            return None
+        base = self.rng.choice(stored).split('#')[0]
+        proid = base.split('.')[0]
+        near = [base[:-1], base + 'x', proid, base + '#*',
+                base.replace('.', '?', 1) + '?', base[:-1] + '[!%s]' % base[-1]]
+        pats = self.rng.sample(near, self.rng.randint(1, 3))
+        self.follow.extend([{'op': 'drain'}, {'op': 'master_cycle'}])
         return {'op': 'apps_blacklist', 'patterns': pats}
 
     def g_blackout_server(self, world):
@@ -2960,6 +2979,7 @@ OP_WEIGHTS = [
     ('resize_mixed', 3), ('frozen_then_presence_lost', 3),
     ('trait_lost_then_place', 3), ('stale_presence_snapshot', 3),
     ('overlapping_blackouts', 3), ('frozen_node_restart', 3),
+    ('blackout_near_miss', 3),
 ]
 
 
